@@ -119,7 +119,10 @@ Definition rec_ok (s1 : subnet) (r : lease_rec) : bool :=
 
 (* the subnet loadByteArray attaches *)
 Definition sub_of (cap : sess) (s2 : subnet) (r : lease_rec) : N :=
-  if cap (r_mac r) then (if contains (s_lan (n_cfg s2)) (r_ip r) then 2 else 1) else 1.
+  if cap (r_mac r)
+  then (if contains (s_lan (n_cfg s2)) (r_ip r) && negb (addr_eqb (r_ip r) (paddr (s_lan (n_cfg s2))))
+           && negb (addr_eqb (r_ip r) (n_bcast s2)) then 2 else 1)
+  else 1.
 Definition restored (cap : sess) (s2 : subnet) (r : lease_rec) : lease :=
   {| l_rec := r; l_sub := sub_of cap s2 r |}.
 
